@@ -152,11 +152,11 @@ where
                         }
                     }
                 });
-                if let Err(TestError::Fail(_, case)) = res {
+                if let Err(TestError::Fail(reason, case)) = res {
                     stop.store(true, Ordering::Relaxed);
                     let f = run(&case).err().unwrap_or(Failure {
                         op_index: 0,
-                        what: "shrunk case did not fail again (flaky?)".into(),
+                        what: format!("{reason} [the shrunk case did not fail when it was run once more]"),
                     });
                     let mut g = failure.lock().expect("failure");
                     if g.is_none() {
@@ -214,6 +214,13 @@ pub fn finish_generic<V: Serialize>(
     let mut code = 0;
     let mut replay_path = None;
     if let Some((case, f)) = &out.failure {
+        if f.what.contains("HARNESS:") {
+            // a problem of the machinery itself (shim self-check, copy failure, scheduler deadlock, worker
+            // without progress): inconclusive, never a violation
+            let p = write_replay_generic(id, kind, case, f, json!({"tier": tier, "seed": seed, "harness_problem": true}));
+            println!("HARNESS problem (inconclusive, not a violation): {} [case saved as {}]", f.what, p.display());
+            return 2;
+        }
         let p = write_replay_generic(id, kind, case, f, json!({"tier": tier, "seed": seed}));
         println!("FAILURE property={} op_index={} : {}", id, f.op_index, f.what);
         println!("VIOLATION property={} replay={}", id, p.display());
